@@ -4,10 +4,15 @@
        tok = #typ #pos <hex val>;  the q-table gives, per attribute string, the items the real scanner
        produces for it in expression mode (lexq); the u-table gives strconv.Unquote of string items (unq).
    parse_expr_entry #pinned #inlen <tok>*
+   parse_bytes #expr <hex text> #nu (<hex str> <S|N> <hex>)*nu
+       the composed functions of Model/ParseBytes.v: the scanner MODEL produces the items (and the items of
+       every quoted attribute expression); only strconv.Unquote comes from the table.  Answer as above,
+       or  lexfail <outcome>  when the scanner model does not return an item list.
    answer:  ok   #recv <scans> <sexp of the tree>
             err  #recv <scans> #typ #pos <hex class> #quoted
             crash <hex msg> | fuel
        scans = sent:recv:drained:done,...   (the entry point's own scanner first)
+   parse_float_round <hex>  ->  val <fl> | range | syntax      (NumLit.parse_float_round, tied to strconv.ParseFloat)
    trim_space <hex> / all_space <hex> / msg_raw_text #pos <hex>  : helpers, for byte-level ties *)
 open Model
 open Driver
@@ -133,6 +138,30 @@ let () =
         let il = n_of_int (int_field inlen) in
         out_s (if int_field pinned <> 0 then soy_expr_pinned il ts else soy_expr il ts)
     | _ -> failwith "parse_expr_entry: arity");
+  register "parse_bytes" (fun a ->
+    match a with
+    | expr :: text :: nu :: rest ->
+        let utbl : (n list, n list option) Hashtbl.t = Hashtbl.create 16 in
+        let r = ref rest in
+        for _ = 1 to int_field nu do
+          (match !r with
+           | s :: "S" :: v :: rest' -> Hashtbl.replace utbl (bstr_of_hex s) (Some (bstr_of_hex v)); r := rest'
+           | s :: "N" :: _ :: rest' -> Hashtbl.replace utbl (bstr_of_hex s) None; r := rest'
+           | _ -> failwith "parse_bytes: u-table truncated")
+        done;
+        let unq s = (try Hashtbl.find utbl s with Not_found -> failwith ("unq: no entry for " ^ hex_of_bstr s)) in
+        let s = bstr_of_hex text in
+        (match (if int_field expr <> 0 then soy_expr_bytes_tbl s else soy_file_bytes_tbl unq s) with
+         | Ok o -> out_s o
+         | Err _ -> ["lexfail"; "err"] | Crash _ -> ["lexfail"; "crash"] | Diverge -> ["lexfail"; "diverge"]
+         | OutOfFuel -> ["lexfail"; "fuel"] | OutOfModel -> ["lexfail"; "oom"])
+    | _ -> failwith "parse_bytes: arity");
+  register "parse_float_round" (fun a ->
+    match a with
+    | [s] -> (match parse_float_round (bstr_of_hex s) with
+              | FRVal f -> ["val"; Sexp.to_string (fl_to f)]
+              | FRRange -> ["range"] | FRSyntax -> ["syntax"])
+    | _ -> failwith "parse_float_round: arity");
   register "trim_space" (fun a -> match a with [s] -> [hex_of_bstr (trim_space (bstr_of_hex s))] | _ -> failwith "trim_space");
   register "all_space" (fun a -> match a with [s] -> [bool_s (all_space (bstr_of_hex s))] | _ -> failwith "all_space");
   register "msg_raw_text" (fun a ->
